@@ -857,6 +857,10 @@ def frozen_pair(g):
   child['fz'] = True
   if r.chance(0.3):
     child.pop('fz')
+  elif r.chance(0.35):
+    # frozen at a non-None value AND noneable: None must still be refused (the frozen shortcuts of
+    # Enum.is_compatible / extend assume a frozen spec accepts exactly its value)
+    child['n'] = 2 if child['k'] == 'enum' else r.choice([1, 2])
   if r.chance(0.3):
     child = {'k': 'dict', 'fields': [[['c', 'x'], child]], 'n': 0}
     base = {'k': 'dict', 'fields': [[['c', 'x'], base]], 'n': 0}
@@ -961,6 +965,25 @@ def enum_over_base_pair(g):
     child = {'k': 'list', 'elem': child, 'mn': None, 'mx': None, 'n': 0}
     base = {'k': 'list', 'elem': base, 'mn': None, 'mx': None, 'n': 0}
   return child, base
+
+
+def var_tuple_pair(g):
+  """(child, base): a variable-length tuple with min_size >= 1 and NO max_size over a variable-length
+  base that has a max_size (the child must inherit it), or with min_size 0 over a base with a min_size."""
+  r = g.r
+  elem = g.spec(0)
+  bmn = r.choice([None, 0, 1, 2])
+  bmx = (bmn or 0) + r.randint(1, 2)
+  base = {'k': 'tuple', 'elem': elem, 'mn': bmn, 'mx': bmx, 'n': 0}
+  if r.chance(0.75):
+    cmn = r.randint(max(1, bmn or 0), bmx)
+    if cmn == bmx:
+      cmn = max(1, bmx - 1) if bmx > 1 else 1
+    child = {'k': 'tuple', 'elem': copy.deepcopy(elem), 'mn': cmn, 'mx': None, 'n': 0}
+  else:
+    child = {'k': 'tuple', 'elem': copy.deepcopy(elem), 'mn': None, 'mx': r.choice([None, bmx]), 'n': 0}
+  vals = [['t', [g.valid(elem) for _ in range(n)]] for n in (bmx - 1, bmx, bmx + 1, bmx + 2) if n >= 0]
+  return child, base, vals
 
 
 def to_num(b):
